@@ -1,5 +1,6 @@
 SPECIFICATION Spec
 CONSTANT Slice = 1
 CONSTANT Level = 2
+CONSTANT PairSlice = 12
 INVARIANT Emit
 INVARIANT Laws
